@@ -32,7 +32,11 @@ class Prop:
             ch.append({"op": n, "id": ctx.next_id(), "a": catalog.ROWS[n].gen(ctx)})
         n = rng.choice(self.aggs)
         ch.append({"op": n, "id": ctx.next_id(), "a": catalog.ROWS[n].gen(ctx)})
-        return {"clock": rng.choice(["test", "test", "historical", "vts"]), "sources": ctx.sources, "chain": ch, "sub_t": 205, "horizon": 1200}
+        sc = {"clock": rng.choice(["test", "test", "historical", "vts"]), "sources": ctx.sources, "chain": ch, "sub_t": 205, "horizon": 1200}
+        off = rng.choice([None, None, None, 37, 123, 411])
+        if off:
+            sc["sub2_t"] = 205 + off  # the same aggregate observable subscribed a second time (a hot source shows it other data)
+        return sc
 
     def gen_seq_equal(self, rng):
         ctx = catalog.Ctx(rng, hot_p=0.5, falsy_p=0.3, sync_p=0.1)
